@@ -65,6 +65,7 @@ from typing import IO, TYPE_CHECKING
 from .errors import ChecksumMismatch
 from .file import GitFile
 from .objects import (
+    S_ISGITLINK,
     Blob,
     Commit,
     ObjectID,
@@ -922,6 +923,7 @@ def build_reachability_bitmap(
     commit_sha: ObjectID,
     sha_to_pos: dict[RawObjectID, int],
     object_store: "BaseObjectStore",
+    outside: set[ObjectID] | None = None,
 ) -> EWAHBitmap:
     """Build a reachability bitmap for a commit.
 
@@ -932,6 +934,8 @@ def build_reachability_bitmap(
         commit_sha: The commit to build a bitmap for
         sha_to_pos: Pre-built mapping from SHA to position in pack
         object_store: Object store to traverse objects
+        outside: If given, filled with the reachable objects that are not in
+            the pack (or not in the store); the bitmap cannot represent them
 
     Returns:
         EWAH bitmap with bits set for reachable objects
@@ -953,6 +957,8 @@ def build_reachability_bitmap(
         raw_sha = hex_to_sha(sha)
         if raw_sha in sha_to_pos:
             bitmap.add(sha_to_pos[raw_sha])
+        elif outside is not None:
+            outside.add(sha)
 
         # Get the object and traverse its references
         try:
@@ -963,11 +969,16 @@ def build_reachability_bitmap(
                 queue.append(obj.tree)
                 queue.extend(obj.parents)
             elif isinstance(obj, Tree):
-                # Tree object - add all entries
+                # Tree object - add all entries (a gitlink names a commit
+                # of another repository, it is not part of this one)
                 for item in obj.items():
+                    if item.mode is not None and S_ISGITLINK(item.mode):
+                        continue
                     queue.append(item.sha)
         except KeyError:
             # Object not in store, skip it
+            if outside is not None:
+                outside.add(sha)
             continue
 
     return bitmap
@@ -1155,7 +1166,15 @@ def generate_bitmap(
         if progress and i % 10 == 0:
             progress(f"Building bitmap {i + 1}/{len(selected_commits)}")
 
-        bitmap = build_reachability_bitmap(commit_sha, sha_to_pos, object_store)
+        outside: set[ObjectID] = set()
+        bitmap = build_reachability_bitmap(
+            commit_sha, sha_to_pos, object_store, outside
+        )
+        if outside:
+            # The pack is not closed under reachability for this commit (it
+            # reaches objects in other packs or loose ones): a bitmap over
+            # this pack's positions would silently leave them out.
+            continue
         commit_bitmaps.append((commit_sha, bitmap))
 
     if progress:
